@@ -107,16 +107,19 @@ CLAIMED = {
           "is decided on each run: every gap of 600 accepted programs rewritten, every subexpression wrapped in 1/2/5 pairs of parentheses, ASTs compared. " + TIE,
           "Coq kernel; token spans from the hook.",
           "Coq proof (tokenizer invariant under re-spacing, all inputs) + parser lemmas + metamorphic correspondence (layout and parenthesis variants)", "6/C11"),
- "C12": C("Proof (Coq). The round trip is a theorem: for every operator table and every well-formed tree or `;`-program within the depth limit, parsing the "
-          "printer's token image gives back the tree (C12_round_trip_tokens); whenever the tokenizer model reads the printer model's TEXT as that token image "
-          "(a computable check, C12_round_trip's second premise) parse(expr(t)) = t and expr is idempotent (C12_round_trip, C12_idempotent). Both computable "
-          "premises are evaluated by the extracted model on EVERY tree of every run (evidence: round_trip_theorem_side_conditions; a tree on which the premises "
-          "hold but the text is not the token image is reported as a broken tie). Also proved: quote choice, the `x not OP y` spelling, parenthesisation of "
-          "conditional / infix / postfix operands (C12_quote_choice, C12_not_infix_form, C12_parenthesised_operands). Every run additionally decides the round trip "
-          "on: every infix operator under every other on either side in plain and `not` form, prefix/postfix over all compound operand kinds, strings with either "
-          "quote, random trees. " + TIE,
-          "Coq kernel; Printer.v transcribes the expr family, Etoks.v its token image (same parenthesisation functions); text = token image is checked per tree, "
-          "not proved for all names/numbers/strings.", "Coq proof (parse o print = id) + per-tree computable side conditions + exhaustive-nesting round-trip correspondence", "6/C12"),
+ "C12": C("Proof (Coq). THE ROUND TRIP THROUGH TEXT IS A THEOREM (C12_round_trip_text = lemma (A) + lemma (B)): for every operator table passing a computable "
+          "print check (tbl_print_okb; the dumped built-in table does: C12_builtin_table_print_ok) and every tree meeting the premises of lemma (B) whose leaves are "
+          "lexically sane (psaneb: names are identifiers that are neither keywords nor operator words, numbers non-negative and in range, a string without both "
+          "quote characters), api_parse (expr t) = Ok t, hence expr is idempotent. Lemma (A) (Lemmas/LexPrint.v, LexPrintExpr.v): the tokenizer model reads the "
+          "printer model's text as the printer's token image - completeness lemmas for every token shape (operators by greedy prefix extension, words, names with "
+          "the call look-ahead, numbers through the decimal print/read round trip, strings, separators) composed along the printer's layout by induction over the "
+          "tree. Lemma (B): parsing that token image gives back the tree (C12_round_trip_tokens). Proving (A) exposed defect D22 (operator words before , ; :), "
+          "repaired by fix c0513cb. The computable premises are evaluated by the extracted model on EVERY tree of every run (evidence: "
+          "round_trip_theorem_side_conditions). Also proved: quote choice, the `x not OP y` spelling, parenthesisation of conditional / infix / postfix operands. "
+          "Every run additionally decides the round trip on: every infix operator under every other on either side in plain and `not` form, prefix/postfix over "
+          "all compound operand kinds, strings with either quote, registered word operators in front of every separator, random trees. " + TIE,
+          "Coq kernel; Printer.v transcribes the expr family, Lexer.v the tokenizer; both tied to the code by the correspondence.",
+          "Coq proof (tokenizer o printer = token image, parser o token image = id) + per-tree computable premises + exhaustive-nesting round-trip correspondence", "6/C12"),
  "C13": C("Proof (Coq), partial (runtime trusted). For ANY number of threads, ANY programs and EVERY schedule of the interleaving model (once-cell gate, "
           "atomic registry accesses): no thread inside a call ever sees a partially initialised table (C13_init_atomic), some thread can always step (C13_no_deadlock), "
           "an un-interleaved call has its sequential result and effect (C13_solo_call_sequential), the schedule is the only non-determinism (C13_step_deterministic). "
